@@ -322,7 +322,9 @@ def run(p, led, tier):
                 except PyRaise as e:
                     if "on_mutation" in repr(e.exc):
                         return None
-                    raise
+                    if observable(obj) != before:
+                        return dict(parent_changed=True, alias=[], diff=[], same=False, approved=False, mutate_calls=0)
+                    return None          # the (arbitrary) arguments were rejected and the parent is untouched: nothing to judge
                 same_obj = child is obj
                 pg, cg = obj.fields[GENES], child.fields[GENES]
                 diff = sorted(k for k in set(pg) | set(cg) if freeze(pg.get(k)) != freeze(cg.get(k)))
